@@ -74,6 +74,9 @@ def strategy(tier):
 
 
 EXHAUSTIVE_DOMAINS = {
+    'operator_grid': 'every mutator and recombinator class (k=1..3 for KPoint, where in {none, first, last} for the point-wise ones) x '
+                     'seeds 0..9 (thorough 0..39) x 2 parent sets on 3 fixed spaces: a sorted non-distinct 3-of-4 multi-choice, a '
+                     'distinct 2-of-3 multi-choice over sub-spaces with a choice and a float, a conditional choice with floats',
     'selector_counts': 'every selector x n in {None, 0..8, 0.0, 0.25, 0.5, 1.0} x population size 1..8 x 4 weight patterns x replacement/cluster flag on a fixed small spec',
 }
 
@@ -94,7 +97,28 @@ def exhaustive(tier):
                 continue
               yield {'shape': shape, 'pop': list(range(1, size + 1)), 'fit': [1, 3, 2, 3, 0, 1.5, -1, 2], 'multi_obj': False,
                      'expr': {'op': op, 'n': n, 'repl': flag, 'cluster': flag, 's': 7, 'w': w}}
-  return {'selector_counts': gen()}
+  def operator_grid():
+    # every mutator / recombinator x seeds on three fixed conditional spaces, so that what a seeded operator does on
+    # constrained multi-choices and nested sub-spaces does not depend on what the random part happens to draw
+    const = {'t': 'space', 'e': []}
+    inner = {'t': 'space', 'e': [{'t': 'choices', 'k': 1, 'c': [const, const, const], 'distinct': True, 'sorted': False},
+                                 {'t': 'float', 'lo': 0.1, 'hi': 0.9}]}
+    shapes = [
+        {'t': 'space', 'e': [{'t': 'choices', 'k': 3, 'c': [const, const, const, const], 'distinct': False, 'sorted': True},
+                             {'t': 'choices', 'k': 1, 'c': [const, const], 'distinct': True, 'sorted': False}]},
+        {'t': 'space', 'e': [{'t': 'choices', 'k': 2, 'c': [inner, inner, inner], 'distinct': True, 'sorted': False}]},
+        {'t': 'space', 'e': [{'t': 'choices', 'k': 1, 'c': [inner, const, {'t': 'space', 'e': [{'t': 'float', 'lo': 1.0, 'hi': 2.0}]}],
+                              'distinct': True, 'sorted': False}, {'t': 'float', 'lo': 0.0, 'hi': 0.3}]},
+    ]
+    for sh in shapes:
+      for op in MUTATORS + RECOMBS:
+        for sd in range(10 if tier == 'quick' else 40):
+          for pop in ([1, 2, 3], [11, 5, 9, 4]):
+            for wh in ((None, 'first', 'last') if op in ('r.Uniform', 'r.Sample', 'r.Average', 'r.WeightedAverage') else (None,)):
+              for k in ((1, 2, 3) if op == 'r.KPoint' else (1,)):
+                yield {'shape': sh, 'pop': pop, 'fit': [1, 3, 2, 0.5], 'multi_obj': False,
+                       'expr': {'op': op, 's': sd, 'k': k, 'where': wh}}
+  return {'selector_counts': gen(), 'operator_grid': operator_grid()}
 
 
 def build_op(e, has_two):
